@@ -120,7 +120,8 @@ CLAIMED.update({
            'OptionBuilder::null / integer (index gets -1 / the position the value received) as single steps over the real GrowableBuffer code; Int64Builder::real (the integers so far converted to double in order, then x; '
            'the old buffer untouched), UnknownBuilder::integer after k leading None (option builder with index -1 ... -1 0 over an integer builder holding exactly x) and UnionBuilder::integer / real over real leaf builders '
            '(the value goes to the first member of its type, a real number otherwise replaces the first integer member by its float conversion, otherwise a new member; tag / index record that member and its previous length; the rest untouched); TupleBuilder::index from any state (a position outside the tuple - negative included - or an unopened tuple is refused, the selection stays inside the tuple), '
-           'TupleBuilder::endtuple (unfilled fields get one None, a field filled twice is refused) and begintuple on a fresh builder (negative field counts refused).',
+           'TupleBuilder::endtuple (unfilled fields get one None, a field filled twice is refused), begintuple on a fresh builder (negative field counts refused) and RecordBuilder::field_check with real key strings '
+           '(a known key selects its field from any cursor position, a new key appends a field pre-filled with one None per closed record).',
            'The other builders (String/Indexed/Datetime/Complex and the remaining leaf builders), from_iter and LayoutBuilder are outside. kernel::malloc stubbed (fresh exact-size buffer), resize in [1.5, 16] '
            '(thorough adds (1, 1.5]).', 'DESIGN.md section 3 (C14)', 'SMT bounded model checking of C++ method LLVM IR (llbmc M-harness, z3 FP); native ASan replay'),
  'C17': mc('Narrow claim (depth queries only): purelist_depth, minmax_depth, branch_depth and numfields of ListOffsetArray64, ListArray64, RegularArray, IndexedOptionArray64, '
